@@ -134,6 +134,24 @@ def load(repo=REPO):
                     if "{}" in s and "\n" not in s:
                         continue  # format! templates
                     texts.add(s)
+    # the witness programs of the audit round (findings/hunt/<property>/<finding>/*.bas): inputs on which the pinned tree
+    # once crashed or misbehaved; they are corpus, their expected behaviour is not used
+    here = os.path.dirname(os.path.dirname(os.path.abspath(__file__)))
+    try:
+        with open(os.path.join(here, "findings", "hunt_excluded.txt")) as f:
+            excluded = set(l.strip() for l in f if l.strip() and not l.startswith("#"))
+    except OSError:
+        excluded = set()
+    for p in glob.glob(os.path.join(here, "findings", "hunt", "*", "*", "*.bas")):
+        if os.path.relpath(os.path.dirname(p), os.path.join(here, "findings", "hunt")) in excluded:
+            continue
+        try:
+            with open(p, "rb") as f:
+                t = f.read().decode("utf-8", "replace")
+        except OSError:
+            continue
+        if 3 <= len(t) <= 20000:
+            texts.add(t)
     return sorted(texts)
 
 
